@@ -401,6 +401,91 @@ def sessRun (strat : Strategy) (clock : Nat → Nat) : Sess → List Event → E
     | .ok s' => sessRun strat clock s' es
     | .error err => .error err
 
+/-! ### a save that can raise
+
+  `backend.save_report` may raise while writing the file (`UnicodeEncodeError`: a text the file's encoding cannot take).
+  The exception escapes `_save()` on the handler thread: `_handler_loop` stops, no later event is handled, nothing is
+  saved any more — the end of the session included.  `saveOk r` says whether serialising and writing the report value
+  `r` succeeds; `sessRun` above is the case `saveOk = fun _ => true` (`Lemmas/SavingG.lean`). -/
+
+inductive SessErrG
+  | base (e : SessErr)
+  | save                       -- `backend.save_report` raised
+deriving DecidableEq, Repr, Inhabited
+
+def liftErr {α : Type} : Except SessErr α → Except SessErrG α
+  | .ok a => .ok a
+  | .error e => .error (.base e)
+
+/-- the file session's handler when the save itself can fail: a save was made iff `saves` grew, and it
+    serialised the report the writer had just updated -/
+def fileSessionHandleG (saveOk : Report → Bool) (strat : Strategy) (clock : Nat → Nat) (s1 : Sess) (e : Event) :
+    Except SessErrG Sess :=
+  match fileSessionHandle strat clock s1 e with
+  | .error err => .error (.base err)
+  | .ok s2 => if s2.saves.length != s1.saves.length && !saveOk s1.w.report then .error .save else .ok s2
+
+def sessStepG (saveOk : Report → Bool) (strat : Strategy) (clock : Nat → Nat) (s : Sess) (e : Event) : Except SessErrG Sess :=
+  match Writer.apply s.w e with
+  | .error err => .error (.base (.writer err))
+  | .ok w' => fileSessionHandleG saveOk strat clock { s with w := w', handled := s.handled + 1 } e
+
+/-- the run up to the first raising handler: the session state reached and what stopped the loop -/
+def sessRunG (saveOk : Report → Bool) (strat : Strategy) (clock : Nat → Nat) : Sess → List Event → Sess × Option SessErrG
+  | s, [] => (s, none)
+  | s, e :: es =>
+    match sessStepG saveOk strat clock s e with
+    | .ok s' => sessRunG saveOk strat clock s' es
+    | .error err => (s, some err)
+
+/-! ### which strategy a run uses: `--save-report`, `$LCC_SAVE_REPORT`, the default -/
+
+/-- Python truthiness of `cli_args.save_report` / `os.environ.get(…)`: absent and `""` are falsy -/
+def truthy : Option String → Option String
+  | some s => if s.isEmpty then none else some s
+  | none => none
+
+def defaultExpr : String := "at_each_failed_test"
+
+/-- `cli_args.save_report or os.environ.get("LCC_SAVE_REPORT") or DEFAULT_REPORT_SAVING_STRATEGY`
+    (cli/commands/run.py: `get_report_saving_strategy`) -/
+def resolveExpr (cli env : Option String) : String :=
+  match truthy cli with
+  | some s => s
+  | none =>
+    match truthy env with
+    | some s => s
+    | none => defaultExpr
+
+def isAsciiDigit (c : Char) : Bool := '0' ≤ c && c ≤ '9'
+
+def digitsValue (cs : List Char) : Nat := cs.foldl (fun acc c => acc * 10 + (c.toNat - 48)) 0
+
+/-- `re.compile(r"^every[_ ](\d+)s$").match(expression)` on ASCII digits (`$` also matches before one final line feed) -/
+def parseEvery (expr : String) : Option Nat :=
+  let cs := expr.toList
+  let cs := if cs.getLast? = some '\n' then cs.dropLast else cs
+  match cs with
+  | 'e' :: 'v' :: 'e' :: 'r' :: 'y' :: sepc :: rest =>
+    if (sepc = '_' || sepc = ' ') && rest.getLast? = some 's' then
+      let ds := rest.dropLast
+      if !ds.isEmpty && ds.all isAsciiDigit then some (digitsValue ds) else none
+    else none
+  | _ => none
+
+/-- `make_report_saving_strategy` (`none`: `ValueError`, surfaced as `LemoncheesecakeException` by `lcc run`) -/
+def parseStrategy (expr : String) : Option Strategy :=
+  if expr = "at_end_of_tests" then some .atEndOfTests
+  else if expr = "at_each_suite" then some .atEachSuite
+  else if expr = "at_each_test" then some .atEachTest
+  else if expr = "at_each_failed_test" then some .atEachFailedTest
+  else if expr = "at_each_log" then some .atEachLog
+  else if expr = "at_each_event" then some .atEachLog
+  else (parseEvery expr).map .everyN
+
+/-- `get_report_saving_strategy(cli_args)` -/
+def chosenStrategy (cli env : Option String) : Option Strategy := parseStrategy (resolveExpr cli env)
+
 /-- the report the file holds (`none`: no file yet) when every save is atomic -/
 def Sess.file (s : Sess) : Option Report := s.saves.head?.map (·.2)
 
